@@ -156,6 +156,25 @@ def _instantiateFeatureVariations(table, fvarAxes, axisLimits):
         if universal:
             break
 
+    # The remaining records must keep seeing the old features: one that leaves
+    # a replaced feature alone would otherwise pick up the new default and,
+    # matching first, keep the catch-all record below from applying.
+    if featureVariationApplied:
+        for record in newRecords:
+            substs = record.FeatureTableSubstitution
+            present = {rec.FeatureIndex for rec in substs.SubstitutionRecord}
+            missing = [
+                deepcopy(default)
+                for default in defaultsSubsts.SubstitutionRecord
+                if default.FeatureIndex not in present
+            ]
+            if missing:
+                substs.SubstitutionRecord = sorted(
+                    substs.SubstitutionRecord + missing,
+                    key=lambda rec: rec.FeatureIndex,
+                )
+                substs.SubstitutionCount = len(substs.SubstitutionRecord)
+
     # Insert a catch-all record to reinstate the old features if necessary
     if featureVariationApplied and newRecords and not universal:
         defaultRecord = ot.FeatureVariationRecord()
